@@ -57,7 +57,17 @@ C12_RULE = ("two harnesses. MTCP: one evaluation = a seeded sequence of 1..20 se
             "the clean fragment train is judged, then EVERY single drop, duplication and adjacent swap of the train is applied in turn (enumerated), then 2..6 seeded multi-fault patterns (<16 losses "
             "in a row) and two interleaved incoming transmissions. Non-trivial = at least one send (MTCP) / a train of >= 2 fragments (BBC); distinct = distinct canonical log.")
 
+LOCAL_RULE = ("one evaluation = one seeded history over {register/unregister a mock agent (1..2 endpoints out of 3, overlapping), REST client register/unregister/fetch through the agent's router, "
+              "deliver a bundle from a peer or submit it locally for one of the endpoints or for an endpoint nobody listens on, ping, a delivery running concurrently with a fetch of one mailbox "
+              "(interleaved at the REST mailbox hooks in a seeded order), advance}; 0..4 mock agents, 0..4 REST clients, 0..2 connected peers. Non-trivial = at least one delivery; distinct = distinct canonical log.")
+
 PROPS = {
+    "C07": {"pkg": "pkg/routing", "binary": "routing.test", "harness": "local", "focus": "C07", "variants": [""],
+            "budget": {"quick": 60, "thorough": 1200}, "level": "exploration", "rule": LOCAL_RULE,
+            "real": ["routing.Core local delivery path, AgentManager", "agent.MuxAgent", "agent.RestAgent behind its gorilla/mux router (recorder requests)", "agent.PingAgent", "storage.Store"],
+            "stub": ["application agents other than REST/ping: recording mock agents", "HTTP transport: httptest recorder, no sockets", "agent.WebSocketAgent: NOT driven by this harness", "convergence layers: scripted peers"],
+            "assumptions": COMMON_ASSUME + ["sync.Map order inside RestAgent is not owned; the oracle demands delivery to all registered clients, which does not depend on it", "REST client uuids (crypto/rand) are canonicalised to client indices before they reach the scheduler or the log"],
+            "required_probes": ["rmw_interleave", "local_bundle_without_recipient", "delivered_report_seen"]},
     "C12": {"parts": [
                 {"pkg": "pkg/cla/mtcp", "binary": "mtcp.test", "harness": "mtcp", "variants": [""]},
                 {"pkg": "pkg/cla/bbc", "binary": "bbc.test", "harness": "bbc", "variants": [""]}],
@@ -102,6 +112,10 @@ NODE_NOTE = ("trusted: Go 1.26.8 runtime + testing/synctest fake clock, the harn
              "not covered: real sockets, disk faults below the file API, backward clock jumps; sampling only")
 
 MANIFEST_TEXT = {
+    "C07": {"text": "Seeded register/unregister/deliver/fetch histories on the real Core + AgentManager + MuxAgent + RestAgent + PingAgent with mock agents and scripted peers; oracle from the registration set at each "
+                    "delivery: every registered recipient of exactly that endpoint gets the bundle once (mock agents: hand-over count; REST clients: all fetches together return it exactly once), nobody else, "
+                    "never a peer, one pong per ping, a 'delivered' report and release from the store only after a hand-over; the deliver-during-fetch interleaving is forced at hooks. WebSocket clients are not covered.",
+            "design_ref": "DESIGN.md §4 C07", "note": NODE_NOTE + "; WebSocket agent not exercised; exactly-once accounting on unique payloads instead of a linearizability checker", "technique": DST},
     "C12": {"text": "MTCP: real client and server handler on a simulated stream: the server's channel carries exactly a prefix of the sent bundles, in order and identical, keep-alives invisible, every send invoked "
                     "after the cut fails and the peer is reported gone. BBC: real connectors on a simulated broadcast medium: the clean train (fragment size <= MTU, consecutive sequence numbers, start/end marks, "
                     "reassembly) and, enumerated per train, every single drop/duplication/adjacent swap: never a different bundle, and failure signalled whenever the bundle was not obtained.",
